@@ -10,6 +10,6 @@ CONSTANTS
   ELits = {"a"}
   PLits = {"a", "b"}
   Depth = 2
-  PathDepth = 3
+  PathDepth = 1
 INVARIANTS MostSpecific
 CHECK_DEADLOCK FALSE
